@@ -114,8 +114,9 @@ func (m MapSchema[K, V]) Unserialize(data any) (any, error) {
 
 	t := m.ReflectedType()
 	result := reflect.MakeMapWithSize(t, v.Len())
-	for _, k := range v.MapKeys() {
-		val := v.MapIndex(k)
+	// MapRange, not MapKeys + MapIndex: a key that is not equal to itself (NaN) cannot be looked up again.
+	for iter := v.MapRange(); iter.Next(); {
+		k, val := iter.Key(), iter.Value()
 
 		unserializedKey, err := m.KeysValue.Unserialize(k.Interface())
 		if err != nil {
@@ -207,11 +208,12 @@ func (m MapSchema[K, V]) ValidateCompatibility(typeOrData any) error {
 		}
 	}
 
-	for _, k := range v.MapKeys() {
+	for iter := v.MapRange(); iter.Next(); {
+		k := iter.Key()
 		if err := m.KeysValue.ValidateCompatibility(k.Interface()); err != nil {
 			return ConstraintErrorAddPathSegment(err, fmt.Sprintf("{%v}", k))
 		}
-		if err := m.ValuesValue.ValidateCompatibility(v.MapIndex(k).Interface()); err != nil {
+		if err := m.ValuesValue.ValidateCompatibility(iter.Value().Interface()); err != nil {
 			return ConstraintErrorAddPathSegment(err, fmt.Sprintf("[%v]", k))
 		}
 	}
@@ -237,11 +239,12 @@ func (m MapSchema[K, V]) Validate(data any) error {
 		}
 	}
 
-	for _, k := range v.MapKeys() {
+	for iter := v.MapRange(); iter.Next(); {
+		k := iter.Key()
 		if err := m.KeysValue.Validate(k.Interface()); err != nil {
 			return ConstraintErrorAddPathSegment(err, fmt.Sprintf("{%v}", k))
 		}
-		if err := m.ValuesValue.Validate(v.MapIndex(k).Interface()); err != nil {
+		if err := m.ValuesValue.Validate(iter.Value().Interface()); err != nil {
 			return ConstraintErrorAddPathSegment(err, fmt.Sprintf("[%v]", k))
 		}
 	}
@@ -255,12 +258,13 @@ func (m MapSchema[K, V]) Serialize(data any) (any, error) {
 
 	v := reflect.ValueOf(data)
 	result := make(map[any]any, v.Len())
-	for _, k := range v.MapKeys() {
+	for iter := v.MapRange(); iter.Next(); {
+		k := iter.Key()
 		serializedKey, err := m.KeysValue.Serialize(k.Interface())
 		if err != nil {
 			return nil, ConstraintErrorAddPathSegment(err, fmt.Sprintf("{%v}", k))
 		}
-		serializedValue, err := m.ValuesValue.Serialize(v.MapIndex(k).Interface())
+		serializedValue, err := m.ValuesValue.Serialize(iter.Value().Interface())
 		if err != nil {
 			return nil, ConstraintErrorAddPathSegment(err, fmt.Sprintf("[%v]", k))
 		}
